@@ -5,6 +5,7 @@ import (
 	"go/constant"
 	"go/token"
 	"go/types"
+	"sort"
 	"strings"
 
 	"golang.org/x/tools/go/ssa"
@@ -642,7 +643,8 @@ func rulePeekUnread(c *Ctx, r *Report) {
 				}
 			}
 			uk := usesK(rt)
-			// the end of file is delivered, not looked ahead at: paths under err == io.EOF need no un-read
+			// paths on which nothing was looked ahead at need no un-read: err == io.EOF (the end is delivered) and
+			// err == one of the error values that the stream's read returns without reading
 			isEOF := func(v ssa.Value) bool {
 				for _, l := range c.originSet(v) {
 					if u, ok := l.(*ssa.UnOp); ok && u.Op == token.MUL {
@@ -653,10 +655,47 @@ func rulePeekUnread(c *Ctx, r *Report) {
 				}
 				return false
 			}
+			sentinels := map[string]bool{}
+			if rr := c.method("Stream", "ReadRune"); rr != nil {
+				for _, f := range append(withAnon(rr), c.method("Stream", "initRead")) {
+					if f == nil {
+						continue
+					}
+					eachInstr(f, func(in ssa.Instruction) {
+						ret, ok := in.(*ssa.Return)
+						if !ok {
+							return
+						}
+						for _, res := range ret.Results {
+							if !isErrorType(res.Type()) {
+								continue
+							}
+							for _, l := range c.originSet(res) {
+								if u, ok := l.(*ssa.UnOp); ok && u.Op == token.MUL {
+									if g, ok := u.X.(*ssa.Global); ok && c.isLibPkg(g.Pkg) {
+										sentinels[g.Name()] = true
+									}
+								}
+							}
+						}
+					})
+				}
+			}
+			nothingRead := func(v ssa.Value) bool {
+				if isEOF(v) {
+					return true
+				}
+				if u, ok := v.(*ssa.UnOp); ok && u.Op == token.MUL {
+					if g, ok := u.X.(*ssa.Global); ok && sentinels[g.Name()] {
+						return true
+					}
+				}
+				return false
+			}
 			hit := errStateReachX(parse, errOf(parse), func(in ssa.Instruction) bool {
 				_, isRet := in.(*ssa.Return)
 				return isRet || uk(in)
-			}, func(in ssa.Instruction) bool { return in == uns[0] }, false, isEOF, false)
+			}, func(in ssa.Instruction) bool { return in == uns[0] }, false, nothingRead, false)
 			switch {
 			case !okStream:
 				r.bad(rule, key, c.at(uns[0]), desc, "the stream un-read is not the stream handed to the parser")
@@ -665,10 +704,16 @@ func rulePeekUnread(c *Ctx, r *Report) {
 			default:
 				r.ok(rule, key, c.at(uns[0]), desc, "one UnreadRune on the parsed stream, on every path from the parse to a return or a use of the continuation", true)
 			}
-			// (e) the delivered end of file is not given back (un-reading it would leave the stream at its end for
-			// ever: end_of_file again and again, the eof_action never applies)
-			notOnEOF := false
-			if ev := errOf(parse); ev != nil {
+			// (e) nothing is given back when nothing was looked ahead at: not the delivered end of file (un-reading it
+			// would leave the stream at its end for ever) and not after a stream-state error, where the parser did
+			// not read at all (un-reading a stream that is past its end takes it back to its end: the permission
+			// error would be raised once and end_of_file be delivered again afterwards). At the un-read the facts say
+			// err == nil, or err differs from io.EOF and from every error value that the stream's read returns
+			// without reading.
+			ev := errOf(parse)
+			excluded := map[string]bool{}
+			isNilKnown := false
+			if ev != nil {
 				for f := range c.factsAt(uns[0].Block()) {
 					bo, ok := f.cond.(*ssa.BinOp)
 					if !ok || (bo.Op != token.EQL && bo.Op != token.NEQ) {
@@ -685,18 +730,37 @@ func rulePeekUnread(c *Ctx, r *Report) {
 					}
 					eq := (bo.Op == token.EQL) == f.pol
 					if k, isConst := other.(*ssa.Const); isConst && k.Value == nil && eq {
-						notOnEOF = true // err == nil
+						isNilKnown = true
 					}
-					if isEOF(other) && !eq {
-						notOnEOF = true
+					if !eq {
+						if isEOF(other) {
+							excluded["io.EOF"] = true
+						}
+						if u, ok := other.(*ssa.UnOp); ok && u.Op == token.MUL {
+							if g, ok := u.X.(*ssa.Global); ok {
+								excluded[g.Name()] = true
+							}
+						}
 					}
 				}
 			}
-			descE := "read_term/3 does not give back the end of file it delivers"
-			if notOnEOF {
-				r.ok(rule, "read_term/3/eof-delivered", c.at(uns[0]), descE, "the un-read is reached only under err != io.EOF (or err == nil)", true)
+			var missing []string
+			if !isNilKnown {
+				if !excluded["io.EOF"] {
+					missing = append(missing, "io.EOF")
+				}
+				for sname := range sentinels {
+					if !excluded[sname] {
+						missing = append(missing, sname)
+					}
+				}
+				sort.Strings(missing)
+			}
+			descE := "read_term/3 gives nothing back when nothing was looked ahead at (delivered end of file, stream-state errors)"
+			if len(missing) == 0 {
+				r.ok(rule, "read_term/3/eof-delivered", c.at(uns[0]), descE, fmt.Sprintf("the un-read is reached only under err == nil, or under err != io.EOF and err != each of the %d error values the stream returns without reading", len(sentinels)), true)
 			} else {
-				r.bad(rule, "read_term/3/eof-delivered", c.at(uns[0]), descE, "the un-read also runs when the parse reported the end of file: un-reading the end leaves the stream at its end, so end_of_file is delivered again and again and the stream's eof_action never applies")
+				r.bad(rule, "read_term/3/eof-delivered", c.at(uns[0]), descE, "the un-read also runs when the parse reported "+strings.Join(missing, ", ")+": nothing was looked ahead at then, and un-reading the end of a stream brings it back from past-the-end")
 			}
 		}
 	} else {
